@@ -309,7 +309,7 @@ func propC11(c *Ctx) {
 	rcf := c.Rule("copy-all-fields", "a decoder that publishes a Bytecode field by field copies every field (file set included, or positions are lost)", 0)
 	ruleCopyAllFields(c, rcf)
 	if vf := getVMFacts(c, rcf); vf != nil {
-		rod := c.Rule("operand-decode", "multi-byte operands (version 1 jump targets are two bytes) are assembled from unsigned bytes in big-endian order by ReadOperands and the VM", 10)
+		rod := c.Rule("operand-decode", "multi-byte operands (version 1 jump targets are two bytes) are assembled from unsigned bytes in big-endian order by ReadOperands and the VM", 3)
 		ruleOperandDecode(c, rod, vf, "")
 	}
 
